@@ -1,17 +1,40 @@
 #!/usr/bin/env python3
-"""Print the markdown table of seeded changes and which checks caught them (from seeded/*/meta.json)."""
-import json, glob, os
+"""Markdown table of all seeded changes and which quick checks report them (from
+seeded/*/meta.json). `--write` replaces the block between the SEED-TABLE markers in DESIGN.md."""
+import json, glob, os, sys
 rows = []
+tot = own_hit = any_hit = 0
 for d in sorted(glob.glob("/verif/seeded/*")):
     m = json.load(open(os.path.join(d, "meta.json")))
     det = m.get("detection", {})
     caught = [p for p, v in sorted(det.items()) if isinstance(v, dict) and v.get("exit") == 1]
-    missed = [p for p, v in sorted(det.items()) if isinstance(v, dict) and v.get("exit") == 0]
+    silent = [p for p, v in sorted(det.items()) if isinstance(v, dict) and v.get("exit") == 0]
     own = det.get(m["property"], {})
-    sig = (own.get("signatures") or [""])[0] if isinstance(own, dict) else ""
-    rows.append((os.path.basename(d), m["summary"].replace("|", "/").replace("\n", " ")[:150], m.get("needs", "").replace("|", "/").replace("\n", " ")[:150],
-                 ", ".join(caught) or "—", ", ".join(missed) or "—", sig))
-print("| seed | change | needs | caught by (quick) | ran silent | first signature of own check |")
-print("|---|---|---|---|---|---|")
-for r in rows:
-    print("| %s | %s | %s | %s | %s | `%s` |" % r)
+    rep = m.get("detection_on_repo", {})
+    tot += 1
+    own_hit += 1 if (isinstance(own, dict) and own.get("exit") == 1) else 0
+    any_hit += 1 if caught else 0
+    sig = ""
+    for p in [m["property"]] + caught:
+        v = det.get(p, {})
+        if isinstance(v, dict) and v.get("signatures"):
+            sig = "%s: %s" % (p, v["signatures"][0])
+            break
+    summ = " ".join(m["summary"].replace("|", "/").split())
+    rows.append("| %s | %s | %s | %s | %s | `%s` |" % (os.path.basename(d), summ[:170] + ("…" if len(summ) > 170 else ""), ", ".join(caught) or "—", ", ".join(silent) or "—",
+                                                   ("exit %s" % rep.get("exit")) if rep else "—", sig))
+head = ["%d seeded changes; %d reported by the quick check of their own property, %d by at least one quick check (scratch-copy evaluation, `tools/mutants.py eval`). "
+        "\"on /repo\" is the exit code of the own property's registered quick command with the patch applied to /repo itself (`tools/confirm_on_repo.py`; — = not run that way)." % (tot, own_hit, any_hit),
+        "", "| seed | change | reported by | ran silent | own check on /repo | first signature |", "|---|---|---|---|---|---|"]
+out = "\n".join(head + rows) + "\n"
+if "--write" in sys.argv:
+    s = open("/verif/DESIGN.md").read()
+    a = s.index("<!-- SEED-TABLE -->")
+    b = s.index("<!-- /SEED-TABLE -->") if "<!-- /SEED-TABLE -->" in s else None
+    if b is None:
+        s = s[:a] + "<!-- SEED-TABLE -->\n" + out + "<!-- /SEED-TABLE -->\n" + s[a + len("<!-- SEED-TABLE -->\n"):]
+    else:
+        s = s[:a] + "<!-- SEED-TABLE -->\n" + out + s[b:]
+    open("/verif/DESIGN.md", "w").write(s)
+else:
+    sys.stdout.write(out)
